@@ -71,6 +71,10 @@ CLAIMED['C15'] = dict(
    text='Machine-checked theorems on TestCase.__call__, the wrapper of deal.cases and cases.exceptions regenerated from deal/_testing.py, with hypothesis as an oracle handing over candidates: a candidate reaches the test function iff every precondition accepts it and the case carries exactly that candidate; a rejected candidate is discarded without running the test; executing a case returns the result, NoReturn exactly for an exception admitted by the raises contracts, and propagates everything else as the same object. Seed determinism, explicit kwargs, annotation-driven strategies, counts and example contracts are decided on the implementation only: the real deal.cases is driven over generated annotated functions and every emitted case is checked (paired runs with equal seeds).',
    design_ref='DESIGN.md 4.15', note=GENERIC_NOTE + ' Partial: the hypothesis engine (strategies, seeds, number of examples) is an oracle, not modelled.',
    technique='Coq proof over code regenerated from source (hypothesis as oracle) + implementation-level exhaustive check of emitted cases')
+CLAIMED['C19'] = dict(
+   text='Machine-checked theorems on the mutation algebra regenerated from deal/linter/_transformer.py (the four mutation classes, their sort keys, _apply_mutations) and on a hand-written, source-pinned model of the planner (transform, _mutations_excs/_markers/_property/_pure/_import, _get_insert_line, _remove_contract): for every file and every list of in-range mutations, applying them in the implementation\'s order equals the per-line nested reading (no mutation shifts a line another one addresses); under the planner\'s well-formedness conditions (at most one Remove per line, appended comments on otherwise untouched lines) the output is the original lines minus the removed ones plus inserted lines plus appended comments, the surviving original lines being exactly the non-removed ones in order; a replaced raises / has contract lists everything declared before plus what is new; only lines of existing contracts are removed, completely; nothing is removed for a disabled type; the import goes after the docstring. Plan and output of the model are compared with Transformer.transform() on grammar-generated modules (every layout the property lists) and repository / standard-library files; what lives in the Python grammar is decided on the implementation: the output parses, normalised AST + docstring + shebang unchanged, declarations only grow, a fixpoint is reached, the linter is clean at the fixpoint, the same names are defined.',
+   design_ref='DESIGN.md 4.19', note=GENERIC_NOTE + ' Partial: validity of the output as Python, AST equality and linter-cleanliness are monitors on the implementation (CPython\'s parser, the linter), not theorems; what the linter reports as undeclared is an input of the planner model (C18\'s subject); execution equivalence is checked only as "the same names are defined".',
+   technique='Coq proof over code regenerated from source + a hand-written planner model (source-pinned) + differential correspondence + monitors with CPython\'s parser and the linter')
 UNCLAIMED_REASON = 'not claimed yet: the Coq model and check for this property are still under construction in this round (no technique switch intended)'
 checks, na = [], []
 for p in props:
